@@ -1040,7 +1040,9 @@ fn parse_till<'s>(cursor: &mut Cursor<'s>, end_delim: u8) -> Result<&'s str, Err
                 ),
             ));
         } else {
-            cursor.advance(1);
+            // skip over a whole character, keys are not restricted to ASCII
+            let char_len = cursor.rest().chars().next().map_or(1, char::len_utf8);
+            cursor.advance(char_len);
         }
     }
     // don't include the closing delimiter
